@@ -13,7 +13,9 @@ REGISTRY["C01"] = dict(
     level="proof",
     theorems=T("C01", "C01_push_back", "C01_push_front", "C01_try_push_back", "C01_try_push_front",
                "C01_pop_back", "C01_pop_front", "C01_remove", "C01_swap", "C01_swap_remove_back",
-               "C01_swap_remove_front", "C01_truncate_back", "C01_truncate_front", "C01_clear"),
+               "C01_swap_remove_front", "C01_truncate_back", "C01_truncate_front", "C01_clear",
+               "C01_make_contiguous", "C01_extend", "C01_fill_spare_with", "C01_fill_with", "C01_drain",
+               "C01_write"),
     cases=P.cases_C01, projection=proj_behaviour, oracles=[P.o_spec, P.o_views, P.o_ledger, P.o_no_defect_panic],
 )
 
@@ -37,15 +39,15 @@ REGISTRY["C05"] = dict(level="proof", theorems=[], cases=P.cases_C05, projection
                        oracles=[P.o_ledger, P.o_views, P.o_no_defect_panic])
 REGISTRY["C06"] = dict(level="proof", theorems=[], cases=P.cases_C06, projection=proj_behaviour,
                        oracles=[P.o_leak, P.o_views, P.o_no_defect_panic])
-REGISTRY["C07"] = dict(level="proof", theorems=[], cases=P.cases_C07, projection=proj_physical,
+REGISTRY["C07"] = dict(level="proof", theorems=T("C07", "C07_get", "C07_front", "C07_back", "C07_nth_back", "C07_index", "C07_slot_holds", "C07_slots_distinct", "C07_as_slices", "C07_contents", "C07_write", "C07_make_contiguous"), cases=P.cases_C07, projection=proj_physical,
                        oracles=[P.o_spec, P.o_views, P.o_ledger, P.o_documented_panics])
-REGISTRY["C08"] = dict(level="proof", theorems=[], cases=P.cases_C08, projection=proj_behaviour,
+REGISTRY["C08"] = dict(level="proof", theorems=T("C08", "C08_over_range", "C08_whole", "C08_next", "C08_next_back", "C08_len", "C08_default", "C08_consume_front", "C08_consume_back", "C08_exhausted", "C08_len_exact", "C08_into_iter_next", "C08_into_iter_next_back"), cases=P.cases_C08, projection=proj_behaviour,
                        oracles=[P.o_spec, P.o_views, P.o_leak, P.o_no_defect_panic])
-REGISTRY["C09"] = dict(level="proof", theorems=[], cases=P.cases_C09, projection=proj_behaviour,
+REGISTRY["C09"] = dict(level="proof", theorems=T("C09", "C09_new", "C09_next", "C09_next_back", "C09_len", "C09_drop"), cases=P.cases_C09, projection=proj_behaviour,
                        oracles=[P.o_spec, P.o_views, P.o_leak, P.o_no_defect_panic])
-REGISTRY["C10"] = dict(level="proof", theorems=[], cases=P.cases_C10, projection=proj_behaviour,
+REGISTRY["C10"] = dict(level="proof", theorems=T("C10", "C10_forget_safe"), cases=P.cases_C10, projection=proj_behaviour,
                        oracles=[P.o_spec, P.o_views, P.o_ledger, P.o_no_defect_panic])
-REGISTRY["C11"] = dict(level="proof", theorems=[], cases=P.cases_C11, projection=proj_behaviour,
+REGISTRY["C11"] = dict(level="proof", theorems=T("C11", "C11_swap_ok", "C11_swap_panics_i", "C11_swap_panics_j", "C11_index", "C11_range_ok", "C11_range_panics", "C11_drain_panics", "C11_backfill_total"), cases=P.cases_C11, projection=proj_behaviour,
                        oracles=[P.o_spec, P.o_documented_panics, P.o_views])
 REGISTRY["C12"] = dict(level="proof", theorems=[], cases=P.cases_C12, projection=proj_behaviour,
                        oracles=[P.o_spec, P.o_leak, P.o_views, P.o_no_defect_panic])
@@ -53,5 +55,5 @@ REGISTRY["C13"] = dict(level="proof", theorems=[], cases=P.cases_C13, projection
                        oracles=[P.o_spec, P.o_views, P.o_no_defect_panic])
 REGISTRY["C14"] = dict(level="proof", theorems=[], cases=P.cases_C14, projection=proj_behaviour,
                        oracles=[P.o_spec, P.o_views, P.o_no_defect_panic])
-REGISTRY["C20"] = dict(level="proof", theorems=[], cases=P.cases_C20, projection=proj_physical,
+REGISTRY["C20"] = dict(level="proof", theorems=T("C20", "C20_push_back", "C20_push_front", "C20_pop_back", "C20_pop_front", "C20_swap", "C20_remove", "C20_truncate", "C20_drain", "C20_make_contiguous"), cases=P.cases_C20, projection=proj_physical,
                        oracles=[P.o_spec, P.o_reloc, P.o_views])
